@@ -55,6 +55,22 @@ def observe(rows):
     return tuple(sorted(keys)), other
 
 
+_shared = {}
+
+
+def observe_shared(rows):
+    """The same file through a SpreadsheetValidator object that has already validated other files."""
+    from hed.models.tabular_input import TabularInput
+    from hed.validator.spreadsheet_validator import SpreadsheetValidator
+    if "v" not in _shared:
+        _shared["v"] = SpreadsheetValidator(hedenv.schema(VERSION))
+    tab = TabularInput(io.StringIO(gen_events.to_tsv(rows)), name="h")
+    dd = tab.get_def_dict(hedenv.schema(VERSION), extra_def_dicts=def_dict())
+    issues = _shared["v"].validate(tab, dd, name="h")
+    return tuple(sorted(str(i.get("source_tag")).casefold() for i in issues
+                        if i["severity"] == 1 and i["code"] == "TEMPORAL_TAG_ERROR"))
+
+
 def features(rows):
     pts = gen_events.effective_points(rows)
     marks = [m for r in rows for m in r["markers"]]
@@ -90,7 +106,16 @@ def oracle(rows):
         from vlib.core import crash_signature
         return out.bad(crash_signature(exc, "validate-raises") or f"validate-raises:{type(exc).__name__}",
                        f"{exc!r}\n{gen_events.to_tsv(rows)}")
+    # one validator object reused for file after file must judge each file on its own
+    try:
+        again = observe_shared(rows)
+    except Exception as exc:  # noqa
+        from vlib.core import crash_signature
+        return out.bad(crash_signature(exc, "shared-validator-raises") or "shared-validator-raises", repr(exc))
     allowed = gen_events.possible_outcomes(rows)
+    if again not in allowed and got in allowed:
+        out.bad("reused-validator-judges-differently", f"fresh {got} reused {again} allowed {sorted(allowed)[:3]}\n"
+                                                       f"{gen_events.to_tsv(rows)}")
     if got not in allowed:
         exp = sorted(allowed)[0]
         kind = "missed" if len(got) < min(len(a) for a in allowed) else \
